@@ -63,9 +63,10 @@ def run(ctx):
     ngroups = 0
     for start, n in groups:
         outs = [(cases[base + start + j], obs[base + start + j]) for j in range(n)]
-        vals = [o.get("outputs") for _, o in outs if o.get("outcome") == "ok"]
+        driven = [(c, o) for c, o in outs if o.get("outcome") in ("ok", "error")]   # harness errors are reported by drive()
+        vals = [o.get("outputs") for _, o in driven if o.get("outcome") == "ok"]
         ngroups += 1
-        if len(vals) != n or any(v != vals[0] for v in vals):
+        if len(vals) != len(driven) or any(v != vals[0] for v in vals):
             c0 = outs[0][0]
             out.failures.append(Failure(
                 case=dict(nodes=c0["nodes"], configurations=[{k: c.get(k) for k in ("mode", "k", "n_procs")} for c, _ in outs]),
